@@ -1697,6 +1697,14 @@ class LLParser:
                         start_pos=cur_src_pos,
                         end_pos=cur_src_pos,
                     )
+                elif top.cur_token_pos > top.start_token_pos:
+                    # the element spans exactly the tokens it has matched
+                    # (trailing empty child elements do not extend it)
+                    t_elem = TElement(
+                        top.symbol, new_elem_value,
+                        start_pos=tokens[top.start_token_pos].start_pos,
+                        end_pos=tokens[top.cur_token_pos-1].end_pos,
+                    )
                 else:
                     t_elem = TElement(top.symbol, new_elem_value)
 
